@@ -70,6 +70,31 @@ def search_exprs(ck, exe, work):
                     ck.broken_ties.append({"kind": "theorem", "name": "intersect_spec", "counterexample": [d1, d2, size1, size2],
                                            "note": "expression differs from its specification but the generated program did not expose it"})
                     return
+    spec = {"int8_p": (-128, 127), "uint8_p": (0, 255), "int16_p": (-32768, 32767), "uint16_p": (0, 65535),
+            "int32_p": (-2 ** 31, 2 ** 31 - 1), "uint32_p": (0, 2 ** 32 - 1)}
+    for fn, expr in ex.get("ranges", {}).items():
+        lo, hi = spec[fn]
+        for v in (lo - 2, lo - 1, lo, lo + 1, -1, 0, 1, hi - 1, hi, hi + 1, hi + 2, 2 * hi + 1, 2 * hi + 2):
+            got = bool(eval(expr, {}, dict(v=v)))
+            if got and not (lo <= v <= hi):
+                # the predicate admits a constant its immediate field cannot carry: use it as an immediate everywhere
+                text = ("m: module\nexport f\nf: func i64, i64:a, i64:b\n  local i64:p, i64:r, i64:q\n  alloca p, 32\n"
+                        f"  add r, a, {v}\n  and q, a, {v}\n  xor r, r, q\n  mov i64:8(p), {v}\n  xor r, r, i64:8(p)\n"
+                        f"  mov i32:16(p), {v}\n  xor r, r, u32:16(p)\n  mul q, b, {v}\n  xor r, r, q\n  lt q, a, {v}\n  add r, r, q\n"
+                        f"  ult q, b, {v}\n  add r, r, q\n  adds q, b, {v}\n  ext32 q, q\n  xor r, r, q\n"
+                        f"  bgt T1, a, {v}\n  add r, r, 7\nT1:\n  ret r\n  endfunc\n  endmodule\n")
+                plan = "call f ii_i 0 1\ncall f ii_i 7fffffff 3\ncall f ii_i ffffffffffffff80 ffffffff\n"
+                rc, lines, err = progtie.run_engine(exe, ENGINES, text, plan, work, "immsearch", timeout=60)
+                badl = [l for l in lines if l.startswith("R ") and " | =" not in l] + [l for l in lines if l.startswith("E ")]
+                if rc != 0 or badl:
+                    ck.violation({"stage": "search", "theorem": "imm_signed_sound / imm_unsigned_sound (Props/C01Exprs.lean)",
+                                  "counterexample": {"predicate": fn, "v": v}, "mir": text, "plan": plan, "engines": ENGINES,
+                                  "lines": badl[:4]},
+                                 what=f"{fn} accepts {v}, which its immediate field cannot carry; a program using it as an immediate: {(badl + [err[-100:]])[0][:160]}")
+                    return
+                ck.broken_ties.append({"kind": "theorem", "name": "imm_sound", "predicate": fn, "v": v,
+                                       "note": "predicate too wide but the targeted program did not expose it"})
+                return
     for a1 in range(3):
         for a2 in range(3):
             for n1 in range(3):
